@@ -72,23 +72,6 @@ def model_check(R):
     R.cov["model"]["broken_variants_rejected"] = 1
 
 
-def oracle(R, files, module="trace/OracleCodec.tla"):
-    envs = [{"TRACE": f} for f in files]
-    res = R.tlc_shards(module, "Empty.cfg", envs, timeout=1800, heap="3g")
-    total = 0
-    bad = []
-    for f, r in zip(files, res):
-        m = re.search(r'"ORACLE",\s*(\d+),\s*"(\[.*?\])"', r.out, re.S)
-        if not m:
-            raise vlib.MachineryError("oracle produced no result for %s:\n%s" % (f, r.tail(30)))
-        total += int(m.group(1))
-        idx = json.loads(m.group(2))
-        if idx:
-            lines = open(f).read().splitlines()
-            bad += [json.loads(lines[i - 1]) for i in idx]
-    return total, bad
-
-
 def run(R):
     rng = random.Random(R.seed)
     model_check(R)
@@ -109,7 +92,7 @@ def run(R):
         out = R.path("codec", "enc-%s.ndjson" % variant)
         R.run([exe, "enc", "300" if R.tier == "thorough" else "70", str(R.seed), out], ok_codes=(0, 70))
         files.append(out)
-    total, bad = oracle(R, files)
+    total, bad = R.oracle("trace/OracleCodec.tla", files)
     groups = {}
     for b in bad:
         hi = b["op"] == "dec" and b["codec"] != 0 and any(c >= 128 for c in b["text"])
@@ -137,7 +120,7 @@ def replay(R, path):
     open(tp, "w").write("\n".join(t.hex() for t in texts) + "\n")
     out = R.path("codec", "replay.ndjson")
     R.run([exe, "dec", tp, "200a", "4", out], ok_codes=(0, 70))
-    total, bad = oracle(R, [out])
+    total, bad = R.oracle("trace/OracleCodec.tla", [out])
     if bad:
         R.violation("codec record rejected by lib/Codec.tla on replay: %s" % json.dumps(bad[0])[:300], {"records": bad[:50]}, name="codec")
     R.add("states", 1); R.add("transitions", 1); R.add("traces_validated_against_impl", total)
